@@ -72,7 +72,8 @@ func (c02) Probes() []string {
 	return []string{"verdict_success", "verdict_fail_preflight", "verdict_fail_actual", "preflight_needed", "no_preflight_needed", "debug_on_failing_preflight", "authorization_under_star", "credentialed_intent", "pna_intent", "method_normalised", "altered_preflight_sent"}
 }
 
-var c02HeaderUniverse = []string{"authorization", "content-type", "x-foo", "x-bar", "x-baz-qux", "accept", "cache-control", "x-a", "x-requested-with", "x-not-listed"}
+var c02HeaderUniverse = []string{"authorization", "content-type", "x-foo", "x-bar", "x-baz-qux", "accept", "cache-control", "x-a", "x-requested-with", "x-not-listed",
+	"x-fo", "x-foo-bar", "content-typ", "authorizationx", "x-"} // prefixes / extensions of names a configuration may list
 var c02Methods = []string{"GET", "POST", "HEAD", "PUT", "put", "Put", "DELETE", "delete", "PATCH", "patch", "OPTIONS", "options", "PURGE", "QUERY", "Foo", "FOO", "get", "UNLISTED"}
 
 func genIntent(r *R, c Cfg) Intent {
